@@ -88,7 +88,8 @@ class DilatedPair:
         self.b = WApp(world, "B", dilation=dilation[1], eager_msgs=False)
         self.apps = {"A": self.a, "B": self.b}
         self.dw = {"A": None, "B": None}
-        self.kw = {n: dict(transit_relay_location=RELAY_HINT if relay else None, no_listen=no_listen[i],
+        relay_ = relay if isinstance(relay, (tuple, list)) else (relay, relay)     # (per side: A, B)
+        self.kw = {n: dict(transit_relay_location=RELAY_HINT if relay_[i] else None, no_listen=no_listen[i],
                            ping_interval=ping_interval, expected_subprotocols=expected[i])
                    for i, n in enumerate("AB")}
         self.a.call("set_code", code)
